@@ -29,6 +29,20 @@ pub struct C03 {
 	/// steps queued behind an inserted one (LIFO)
 	queue: Vec<Step>,
 	p_bad_reply: u64,
+	/// scripted: two accounts of one wallet whose log-id counters are equal each hold a
+	/// pending transaction (same numeric id); the second one is cancelled; the first
+	/// account then sends again
+	twin: Option<Twin>,
+	twin_tried: bool,
+}
+
+struct Twin {
+	w: usize,
+	a: String,
+	b: String,
+	stage: u32,
+	m_a: Option<usize>,
+	m_b: Option<usize>,
 }
 
 impl C03 {
@@ -51,6 +65,8 @@ impl C03 {
 			avoid_known: false,
 			queue: vec![],
 			p_bad_reply: *run.rng.pick(&[0u64, 15, 30]),
+			twin: None,
+			twin_tried: false,
 		}
 	}
 
@@ -103,6 +119,52 @@ impl C03 {
 	}
 }
 
+impl C03 {
+	fn twin_step(&mut self, run: &mut Run) -> Option<Step> {
+		let t = self.twin.as_mut()?;
+		let w = t.w;
+		let small = |run: &mut Run| {
+			let mut a = crate::ops::SendArgs::simple(run.rng.range(1, 9) * 100_000_000 + run.rng.below(1000));
+			a.min_conf = 1;
+			a.max_outputs = 500;
+			a.num_change = 1;
+			a.use_all = false;
+			a
+		};
+		let op = match t.stage {
+			0 => Op::SetAccount { w, label: t.a.clone() },
+			1 => Op::Refresh { w },
+			2 => Op::SetAccount { w, label: t.b.clone() },
+			3 => Op::Refresh { w },
+			4 => Op::SetAccount { w, label: t.a.clone() },
+			5 => Op::InitSend { w, args: small(run) },
+			6 => Op::Lock { w, m: t.m_a? },
+			7 => Op::SetAccount { w, label: t.b.clone() },
+			8 => Op::InitSend { w, args: small(run) },
+			9 => Op::Lock { w, m: t.m_b? },
+			10 => {
+				// the precondition the script is after: equal numeric log ids
+				let snap = run.ex.world.snap(w);
+				let ida = run.ex.msgs.get(t.m_a?).and_then(|m| snap.txs.iter().find(|e| e.tx_slate_id == Some(m.slate.id)).map(|e| e.id));
+				let idb = run.ex.msgs.get(t.m_b?).and_then(|m| snap.txs.iter().find(|e| e.tx_slate_id == Some(m.slate.id)).map(|e| e.id));
+				if ida.is_some() && ida == idb {
+					run.cov.probe("pending_transactions_of_two_accounts_share_a_log_id");
+				}
+				Op::Cancel { w, m: t.m_b, id: None }
+			}
+			11 => Op::SetAccount { w, label: t.a.clone() },
+			12 => {
+				let mut a = small(run);
+				a.use_all = true;
+				Op::InitSend { w, args: a }
+			}
+			_ => return None,
+		};
+		t.stage += 1;
+		Some(Step::new(op))
+	}
+}
+
 impl Prop for C03 {
 	fn id(&self) -> &'static str {
 		"C03"
@@ -111,6 +173,33 @@ impl Prop for C03 {
 	fn next(&mut self, run: &mut Run) -> Option<Step> {
 		if let Some(s) = self.queue.pop() {
 			return Some(s);
+		}
+		if self.twin.is_some() {
+			match self.twin_step(run) {
+				Some(s) => return Some(s),
+				None => self.twin = None,
+			}
+		}
+		if !self.gen.in_setup() && self.gen.twins && !self.twin_tried {
+			self.twin_tried = true;
+			if run.rng.chance(2, 3) {
+				let cands: Vec<usize> = (0..self.gen.labels.len())
+					.filter(|w| self.gen.labels[*w].len() > 1 && self.gen.cfg.fund_blocks.get(*w).cloned().unwrap_or(0) > 0)
+					.collect();
+				if !cands.is_empty() {
+					let w = *run.rng.pick(&cands);
+					let mut l = self.gen.labels[w].clone();
+					let i = run.rng.idx(l.len());
+					let a = l.remove(i);
+					let b = run.rng.pick(&l).clone();
+					self.twin = Some(Twin { w, a, b, stage: 0, m_a: None, m_b: None });
+					run.cov.probe("twin_accounts_script_started");
+					if let Some(s) = self.twin_step(run) {
+						return Some(s);
+					}
+					self.twin = None;
+				}
+			}
 		}
 		let st = self.gen.next(run)?;
 		// a finalize is sometimes preceded by the same step with a damaged copy of the
@@ -173,6 +262,18 @@ impl Prop for C03 {
 		if let Op::Mutate { .. } = &step.op {
 			if out.new_msg.is_none() && self.queue.len() >= 2 {
 				self.queue.pop();
+			}
+		}
+		if let Some(t) = self.twin.as_mut() {
+			if let (Op::InitSend { .. }, Some(m)) = (&step.op, out.new_msg) {
+				if t.stage == 6 {
+					t.m_a = Some(m);
+				} else if t.stage == 9 {
+					t.m_b = Some(m);
+				}
+			}
+			if !out.ok && !matches!(step.op, Op::Refresh { .. }) {
+				self.twin = None;
 			}
 		}
 		let key = Self::step_key(run, step);
@@ -358,6 +459,43 @@ impl Prop for C03 {
 						}
 					} else {
 						owner_of.insert(k, d);
+					}
+				}
+			}
+			// a reservation lasts until its own transaction is cancelled or confirmed: while
+			// the wallet's sent entry of a reserved deal is live, every output reserved for
+			// it is still reserved (or already spent on chain, seen by a refresh)
+			for (d, deal) in run.model.deals.iter().enumerate() {
+				if deal.payer != Some(w) || !deal.locked || deal.reserved.is_empty() {
+					continue;
+				}
+				let live = snap.txs.iter().any(|t| {
+					t.tx_slate_id == Some(deal.id) && t.tx_type == TxLogEntryType::TxSent && !t.confirmed
+				});
+				if !live {
+					continue;
+				}
+				run.cov.probe("live_reservation_checked_after_a_step");
+				for (k, _) in &deal.reserved {
+					let st = snap.outputs.iter().find(|o| o.key_id.to_hex() == *k).map(|o| o.status.clone());
+					match st {
+						Some(OutputStatus::Locked) | Some(OutputStatus::Spent) => {}
+						other => {
+							v.push(run.viol(
+								"exclusive_inputs",
+								"reservation_released_while_live",
+								format!(
+									"wallet {}: output {} reserved for deal {} ({}) is {:?} although that transaction is still live (after {})",
+									w,
+									k,
+									d,
+									deal.id,
+									other,
+									step.kind()
+								),
+							));
+							break;
+						}
 					}
 				}
 			}
